@@ -34,6 +34,12 @@ def ofOpt : Option Nat → Nat
   | none => 18446744073709551615
   | some v => v
 
+/-- case split on every `if` (after expanding the `let`s), then linear arithmetic, with `simp_all` as a fallback -/
+macro "kernel_fin" : tactic => `(tactic| first | omega | with_reducible rfl | (simp_all; done) | (simp_all; omega))
+macro "kernel_arith" : tactic =>
+  `(tactic| ((try dsimp only) <;> (repeat' (split <;> try dsimp only)) <;>
+      first | kernel_fin | (simp_all; (repeat' split) <;> kernel_fin)))
+
 /-! ## Variable-length integers and Index size arithmetic (vli_size.c, index.h, index.c) — C02, C13 -/
 
 /-- `lzma_vli_size` is the model of C13 for every argument (the fuel 10 of the translated loop is never exhausted
@@ -113,10 +119,11 @@ theorem index_stream_size_eq (blocksSize count listSize : Nat) (h : blocksSize +
 
 /-- `index_file_size` on the domain the models are written for: the first 64-bit sum does not wrap (in every state
     `lzma_index_append` / `lzma_index_stream_padding` / `lzma_index_cat` can reach, `compressed_base + stream_padding`
-    is at most LZMA_VLI_MAX - 32 and `unpadded_sum ≤ UNPADDED_SIZE_MAX`) and the List of Records size is a valid VLI.
+    is at most LZMA_VLI_MAX - 32 and `unpadded_sum ≤ UNPADDED_SIZE_MAX`) and neither does the second (the List of
+    Records is far below 2^63 bytes: an Index above LZMA_BACKWARD_SIZE_MAX = 2^34 is refused right afterwards).
     The result LZMA_VLI_UNKNOWN is `none` in the C02 model. -/
 theorem index_file_size_eq (cb us count listSize sp : Nat) (h1 : cb + sp + us + 27 < U64)
-    (h3 : listSize ≤ 9223372036854775807) :
+    (h3 : listSize + 17 ≤ 9223372036854775808) :
     Kernels.index_file_size cb us count listSize sp = ofOpt (Container.indexFileSize cb us count listSize sp)
     ∧ Kernels.index_file_size cb us count listSize sp = Index.indexFileSize cb us count listSize sp := by
   unfold U64 at h1
@@ -138,5 +145,108 @@ theorem index_file_size_eq (cb us count listSize sp : Nat) (h1 : cb + sp + us + 
     by_cases hB : cb + 2 * 12 + sp + c + s > 9223372036854775807
     · simp [hB, ofOpt]
     · simp [hB, ofOpt]
+
+/-! ## Check sizes and Block sizes (check.c, block_util.c) — C02 -/
+
+theorem check_sizes_table : Kernels.lzma_check_size_check_sizes = Container.checkSizes := by decide
+
+/-- `lzma_check_size` for every `lzma_check` value (the enum is an `unsigned int`). -/
+theorem check_size_eq (c : Nat) : Kernels.lzma_check_size c = Container.checkSize c := by
+  unfold Kernels.lzma_check_size Container.checkSize Container.CHECK_ID_MAX Container.UINT32_MAX
+  rw [check_sizes_table]
+
+theorem check_size_le : ∀ c, c ≤ 15 → Kernels.lzma_check_size c ≤ 64 := by decide
+
+/-- `lzma_block_unpadded_size(block)` as a function of the four members it reads (`block` non-NULL); the member
+    `compressed_size` is LZMA_VLI_UNKNOWN = 2^64-1 exactly when the model's argument is `none`. -/
+theorem block_unpadded_size_eq (check cs hs ver : Nat) (hcs : cs < U64) (hhs : hs < U32) :
+    Kernels.lzma_block_unpadded_size check cs hs ver = Container.blockUnpaddedSize ver hs check (optVli cs) := by
+  unfold U64 at hcs; unfold U32 at hhs
+  unfold Kernels.lzma_block_unpadded_size Container.blockUnpaddedSize optVli
+  rw [check_size_eq]
+  have hc : check ≤ 15 → Container.checkSize check ≤ 64 := by rw [← check_size_eq]; exact check_size_le check
+  generalize Container.checkSize check = k at *
+  by_cases hu : cs = 18446744073709551615
+  · subst hu
+    simp only [Vli.vliIsValid, Container.BLOCK_HEADER_SIZE_MIN, Container.BLOCK_HEADER_SIZE_MAX, Container.CHECK_ID_MAX, Vli.VLI_UNKNOWN, if_true]
+    kernel_arith
+  · simp only [hu, if_false, Vli.vliIsValid, Container.BLOCK_HEADER_SIZE_MIN, Container.BLOCK_HEADER_SIZE_MAX, Container.CHECK_ID_MAX,
+      Vli.VLI_MAX, Container.UNPADDED_SIZE_MAX]
+    kernel_arith
+
+/-- `lzma_block_total_size(block)` -/
+theorem block_total_size_eq (check cs hs ver : Nat) (hcs : cs < U64) (hhs : hs < U32) :
+    Kernels.lzma_block_total_size check cs hs ver = Container.blockTotalSize ver hs check (optVli cs) := by
+  unfold Kernels.lzma_block_total_size Container.blockTotalSize
+  rw [block_unpadded_size_eq check cs hs ver hcs hhs]
+  have hb : Container.blockUnpaddedSize ver hs check (optVli cs) = 18446744073709551615
+      ∨ Container.blockUnpaddedSize ver hs check (optVli cs) ≤ 9223372036854775804 := by
+    unfold Container.blockUnpaddedSize Container.UNPADDED_SIZE_MAX Vli.VLI_UNKNOWN
+    kernel_arith
+  generalize Container.blockUnpaddedSize ver hs check (optVli cs) = u at *
+  unfold Kernels.vli_ceil4 Container.ceil4 Vli.VLI_UNKNOWN
+  kernel_arith
+
+/-! ## Bound functions (block_buffer_encoder.c, stream_buffer_encoder.c) — C02, C09 -/
+
+theorem c_csm : Container.COMPRESSED_SIZE_MAX = 9223372036854774716 ∧ Memusage.COMPRESSED_SIZE_MAX = 9223372036854774716 := by decide
+
+theorem lzma2_bound_eq (n : Nat) (h : n < U64) :
+    Kernels.lzma2_bound n = Container.lzma2Bound n ∧ Kernels.lzma2_bound n = Memusage.lzma2Bound n := by
+  unfold U64 at h
+  unfold Kernels.lzma2_bound Container.lzma2Bound Memusage.lzma2Bound
+  rw [c_csm.1, c_csm.2]
+  unfold Container.LZMA2_CHUNK_MAX Memusage.LZMA2_CHUNK_MAX Container.LZMA2_HEADER_UNCOMPRESSED Memusage.LZMA2_HEADER_UNCOMPRESSED
+  constructor <;> kernel_arith
+
+theorem lzma2_bound_le (n : Nat) : Kernels.lzma2_bound n ≤ 9223372036854774716 := by
+  by_cases h : n < U64
+  · rw [(lzma2_bound_eq n h).1]
+    unfold Container.lzma2Bound
+    rw [c_csm.1]
+    unfold Container.LZMA2_CHUNK_MAX Container.LZMA2_HEADER_UNCOMPRESSED
+    kernel_arith
+  · unfold U64 at h
+    unfold Kernels.lzma2_bound
+    rw [if_pos (by omega)]; omega
+
+theorem c_bounds : Container.BLOCK_HEADERS_BOUND = 92 ∧ Memusage.HEADERS_BOUND = 92 ∧ Container.STREAM_HEADERS_BOUND = 48
+    ∧ Container.UINT64_MAX = 18446744073709551615 ∧ Vli.VLI_MAX = 9223372036854775807 := by decide
+
+/-- `lzma_block_buffer_bound64` -/
+theorem block_buffer_bound64_eq (n : Nat) (h : n < U64) :
+    Kernels.lzma_block_buffer_bound64 n = Container.blockBufferBound64 n
+    ∧ Kernels.lzma_block_buffer_bound64 n = Memusage.blockBufferBound64 n := by
+  unfold Kernels.lzma_block_buffer_bound64 Container.blockBufferBound64 Memusage.blockBufferBound64
+  rw [← (lzma2_bound_eq n h).1, ← (lzma2_bound_eq n h).2, c_bounds.1, c_bounds.2.1]
+  have := lzma2_bound_le n
+  generalize Kernels.lzma2_bound n = l at *
+  constructor <;> kernel_arith
+
+/-- `lzma_block_buffer_bound` (`size_t` is 64 bits in this build: the `#if SIZE_MAX < UINT64_MAX` branch is absent) -/
+theorem block_buffer_bound_eq (n : Nat) (h : n < U64) : Kernels.lzma_block_buffer_bound n = Container.blockBufferBound n := by
+  unfold Kernels.lzma_block_buffer_bound Container.blockBufferBound
+  exact (block_buffer_bound64_eq n h).1
+
+theorem block_buffer_bound64_le (n : Nat) : Kernels.lzma_block_buffer_bound64 n ≤ 9223372036854774716 + 92 := by
+  unfold Kernels.lzma_block_buffer_bound64
+  have := lzma2_bound_le n
+  generalize Kernels.lzma2_bound n = l at *
+  kernel_arith
+
+/-- `lzma_stream_buffer_bound` -/
+theorem stream_buffer_bound_eq (n : Nat) (h : n < U64) : Kernels.lzma_stream_buffer_bound n = Container.streamBufferBound n := by
+  unfold Kernels.lzma_stream_buffer_bound Container.streamBufferBound
+  rw [← block_buffer_bound_eq n h, c_bounds.2.2.1, c_bounds.2.2.2.1, c_bounds.2.2.2.2]
+  have hb : Kernels.lzma_block_buffer_bound n ≤ 9223372036854774716 + 92 := block_buffer_bound64_le n
+  generalize Kernels.lzma_block_buffer_bound n = b at *
+  kernel_arith
+
+/-! ## Stream Footer (stream_flags_common.h) — C02 -/
+
+/-- `is_backward_size_valid(options)` as a function of `options->backward_size` -/
+theorem is_backward_size_valid_eq (bs : Nat) : Kernels.is_backward_size_valid bs = Container.isBackwardSizeValid bs := by
+  unfold Kernels.is_backward_size_valid Container.isBackwardSizeValid Container.BACKWARD_SIZE_MIN Container.BACKWARD_SIZE_MAX
+  simp only [and_assoc, ge_iff_le]
 
 end XzVerif.Kernels
